@@ -58,6 +58,8 @@ def _gen_omega(rw, L):
         k = rw.randrange(1, L // 2 + 1)
         b = k * (1.0 + rw.choice([-1, 1]) * rw.choice([2e-6, 6e-6, 9e-6, 3e-5, 1e-4]))
         return min(float(np.pi), 2 * np.pi * b / L)
+    if L >= 16 and rw.random() < 0.08:
+        return 2 * np.pi * rw.uniform(0.3, 4.0) / L      # the lowest bins (where offsets and trends leak most)
     if r < 0.08:
         return 0.0
     if r < 0.16:
